@@ -125,3 +125,14 @@ VARIANTS += [
       edits=[IT_IMPORT, (V, IT_OLD, 'for i, certResult := range stdslices.Backward(certResults) {\n\t\tcert := certChain[i]'),
              (V, '\tif len(certResults) != len(certChain) {', '\tif len(certResults) > len(certChain)+1 {')]),
 ]
+
+# a local closure as the single failure exit: `failed := func(err error) (*Outcome, error) { outcome.Error = err; return outcome, err }`
+FC_OLD = '\terr = v.processSignature(ctx, signature, envelopeMediaType, trustPolicy.Name, trustPolicy.TrustedIdentities, trustPolicy.TrustStores, trustPolicy.SignatureVerification, pluginConfig, outcome)\n\n\tif err != nil {\n\t\toutcome.Error = err\n\t\treturn outcome, err\n\t}\n'
+def fc(body):
+    return '\tfailed := func(err error) (*notation.VerificationOutcome, error) {\n' + body + '\t}\n\terr = v.processSignature(ctx, signature, envelopeMediaType, trustPolicy.Name, trustPolicy.TrustedIdentities, trustPolicy.TrustStores, trustPolicy.SignatureVerification, pluginConfig, outcome)\n\n\tif err != nil {\n\t\treturn failed(err)\n\t}\n'
+VARIANTS += [
+ dict(name='benign-failure-exit-closure', file=V, expect='silent', find=FC_OLD, replace=fc('\t\toutcome.Error = err\n\t\treturn outcome, err\n')),
+ dict(name='failure-exit-closure-does-not-record', file=V, expect='flagged(consistency/(*ngo/verifier.verifier).Verify)', find=FC_OLD, replace=fc('\t\treturn outcome, err\n')),
+ dict(name='failure-exit-closure-returns-nil', file=V, expect='flagged(consistency/(*ngo/verifier.verifier).Verify)', find=FC_OLD, replace=fc('\t\toutcome.Error = err\n\t\treturn outcome, nil\n')),
+ dict(name='failure-exit-closure-returns-fresh-outcome', file=V, expect='flagged(consistency/(*ngo/verifier.verifier).Verify)', find=FC_OLD, replace=fc('\t\toutcome.Error = err\n\t\treturn &notation.VerificationOutcome{Error: err}, err\n')),
+]
